@@ -18,7 +18,7 @@ ID = 'C12'
 RULE = ('Valid powertrains with emphasis on self-locking models that end a run held, duty-cycle histories from '
         'disjoint ConstantPWM windows and time-dependent loads. split: the same model is simulated as [run n1*dt, run '
         'n2*dt] and as [run (n1+n2)*dt], any split point, the continuation optionally written in another time unit; '
-        'time axis and EVERY recorded series must agree - bit-identically when dt is dyadic (2^-j s) and the unit is '
+        '(its duration optionally in a third unit); time axis and EVERY recorded series must agree - bit-identically when dt is dyadic (2^-j s) and the unit is '
         'kept, within 1e-9 relative otherwise (cases whose timer windows / lock decisions lie within 1e-9 of a grid '
         'instant or threshold are counted as near-threshold and skipped). rerun: [schedule, reset, re-apply the '
         'initial conditions, same schedule] with the same or a new Solver must reproduce the first epoch '
@@ -102,8 +102,11 @@ def check_split(case) -> Result:
     u2 = sp.get('unit2') or dt[1]
     dt2 = list(dt) if u2 == dt[1] else G.qty('TimeInterval', dt_si, u2)
     ctl = bool(case.get('control'))
+    T2 = [dt2[0] * n2, dt2[1]]
+    if sp.get('unitT2') and sp['unitT2'] != dt2[1]:
+        T2 = [float(U.convert_exact('TimeInterval', dt2[0], dt2[1], sp['unitT2']) * n2), sp['unitT2']]
     A = dict(case, history=[{'op': 'run', 'dt': dt, 'T': [dt[0] * n1, dt[1]], 'control': ctl},
-                            {'op': 'run', 'dt': dt2, 'T': [dt2[0] * n2, dt2[1]], 'control': ctl}])
+                            {'op': 'run', 'dt': dt2, 'T': T2, 'control': ctl}])
     Bc = dict(case, history=[{'op': 'run', 'dt': dt, 'T': [dt[0] * (n1 + n2), dt[1]], 'control': ctl}])
     try:
         ba, ta, ea = S.simulate(A)
@@ -127,7 +130,7 @@ def check_split(case) -> Result:
         res.classes += ('incomplete-or-nonfinite-trace',)
         return res
     dyadic = dt[1] == 'sec' and Fr(dt[0]).denominator & (Fr(dt[0]).denominator - 1) == 0 and Fr(dt[0]).denominator <= 2 ** 20
-    exact = dyadic and u2 == dt[1]
+    exact = dyadic and u2 == dt[1] and T2[1] == dt[1]
     if not exact:
         m = _near_threshold(case, mdl, b, dt_si)
         if m < 1e-6:
@@ -220,7 +223,8 @@ def s_split(draw, max_steps=40):
     else:
         dt = G.qty('TimeInterval', draw(st.floats(0.02, 1.0)) / mdl.k, draw(G.s_unit('TimeInterval')))
         unit2 = draw(st.sampled_from([None, None, 'sec', 'ms', 'min', 'hour']))
-    case['split'] = {'dt': dt, 'n1': n1, 'n2': n2, 'unit2': unit2}
+    case['split'] = {'dt': dt, 'n1': n1, 'n2': n2, 'unit2': unit2,
+                     'unitT2': draw(st.sampled_from([None, None, 'sec', 'ms', 'min', 'hour']))}
     case['history'] = []
     horizon = U.si('TimeInterval', *dt) * (n1 + n2)
     rules = G.s_constant_rules(draw, horizon, max_rules=3)
